@@ -118,3 +118,17 @@ package interp
 //@   exec-ensures [path:4] low-high-max: getFrame(f, l).data[i] == rvSlice3Op(arrayOf(n.child[0], f), idx(n.child[1], f), idx(n.child[2], f), idx(n.child[3], f))
 //@   exec-ensures continues: ret == next
 //@   exec-canary [path:4] swapped: getFrame(f, l).data[i] == rvSlice3Op(arrayOf(n.child[0], f), idx(n.child[1], f), idx(n.child[3], f), idx(n.child[2], f))
+
+// Variadic call of an interpreted function: an argument passed in spread form (f(s...)) IS the variadic
+// parameter — the callee shares the caller's slice (its elements, its capacity), as Go prescribes; only
+// individually passed arguments are gathered into a new slice.
+//@ lit call mentions:vararg (f) (next)
+//@   props C04
+//@   opt loops = havoc
+//@   opt safety = off
+//@   opt opaque-calls = *
+//@   opt opaque-havoc = none
+//@   opt fn-values = pure
+//@   requires [assume] f != nil
+//@   loop 6
+//@   step spread-argument-shares-the-callers-slice: variadic >= 0 && i >= variadic && rvType(v(f)) == rvType(vararg) ==> rvIface(vararg) == rvIface(v(f)) && rvInt(vararg) == rvInt(v(f))
